@@ -138,7 +138,7 @@ def maxLTXFile (l : List LTXFile) : Option LTXFile :=
 def openDB (d : Eng) : Except String Eng := do
   -- volatile state starts from scratch
   let s : Eng := { opened := true, primary := d.primary, hasDB := true, dbFile := d.dbFile, journal := d.journal,
-                   wal := d.wal, ltx := d.ltx, compress := d.compress }
+                   wal := d.wal, ltx := d.ltx, compress := d.compress, backup := d.backup }
   -- initFromDatabaseHeader
   let s ← (match s.dbFile with
     | none => pure s
